@@ -13,6 +13,9 @@ CONSTANTS
   LoIds = {}
   Unhashed = FALSE
   Perms = FALSE
+  RIdxs = {2}
+  Faults = FALSE
+  OldCs = {2}
 INVARIANTS InvEnv InvCursor InvSorted InvRoundOK InvRunOK
 PROPERTIES PropTerminates PropInputsStable
 CHECK_DEADLOCK TRUE
